@@ -67,7 +67,9 @@ def _collect_pow(expr: Pow) -> tuple[Expr, Dimension]:
     base_expr, base_dim = collect_expression_and_dimension(expr.base)
 
     expr_ = base_expr**exp_expr
-    dim = base_dim**exp_expr
+    # (dimensionless) quantities in the exponent scale the dimension by their values
+    exp_factor = exp_expr.subs({qty: qty.scale_factor for qty in exp_expr.atoms(SymQuantity)})
+    dim = base_dim**exp_factor
 
     return expr_, dim
 
